@@ -265,3 +265,29 @@ def ctl_oob(L: Layout, f: Field, prop, op="get") -> Harness:
     h.name = f"ctl_oob_{op}_{f.name}"
     h.expect, h.family, h.note = "control", "control", "marker"
     return h
+
+
+def h_set2(L: Layout, f: Field, prop, name=None) -> Harness:
+    """two writes to the same field (the second must win completely), then a read: needs stale bits
+    from the first write to be cleared, in the field and nowhere else"""
+    b = raw_sym(L)
+    b.append(f"let x = {L.name}::new_with_raw_value(r);")
+    il, i, sh = idx_lines(f)
+    b += il
+    b += val_sym(f.ty, "v1")
+    b += val_sym(f.ty, "v2")
+    b.append(f"let y = {call_with(f, call_with(f, 'x', i, 'v1'), i, 'v2')};")
+    b.append(f"let want: u128 = spec::put(r128, {rng(f.ranges)}, {sh}, {val_bits(f.ty, 'v2')});")
+    b.append(f'assert!({raw_of(L, "y")} == want, "VERIF with_{f.name}(v1).with_{f.name}(v2): result differs from writing v2 alone");')
+    b.append("let mut z = x;")
+    b.append(call_set(f, "z", i, "v1"))
+    b.append(call_set(f, "z", i, "v2"))
+    b.append(f'assert!({raw_of(L, "z")} == want, "VERIF set_{f.name}(v1); set_{f.name}(v2): result differs from writing v2 alone");')
+    if f.readable:
+        b.append(f"let g: {f.ty.getter_ty()} = {call_get(f, 'y', i)};")
+        b += getter_eq_value(f.ty, "g", "v2", f"VERIF read-back after two writes to {f.name}")
+        b.append(f"let g2: {f.ty.getter_ty()} = {call_get(f, 'z', i)};")
+        b += getter_eq_value(f.ty, "g2", "v2", f"VERIF read-back after two set_ writes to {f.name}")
+    b.append("vend!();")
+    ops = ["with_", "set_"] + ([""] if f.readable else [])
+    return Harness(name or f"set2_{f.name}", "\n".join(b), "pass", "set_twice", prop, f.name, funcs_for(L, f, ops))
